@@ -213,32 +213,54 @@ def gen_intent(rng, n, how):
 
 
 # ---- GFF3 text ------------------------------------------------------------
-def gff_text(rng, n_feat, id_suffix=""):
-    """GFF3 text with (a) features carrying an ID (1-3 rows each, rows of one feature scattered over the file) and
-    (b) many rows WITHOUT an ID: only `Parent=`, only a note, or no attributes at all"""
-    rows, ids = [], []
+LOOKALIKE_KEYS = ["exon_id", "protein_id", "transcript_id", "Id", "PARENT", "parent_gene", "gene_id"]
+
+
+def gff_text(rng, n_feat, id_suffix="", order="shuffle", min_rows=1):
+    """GFF3 text with (a) features carrying an ID (1-3 rows each; `order`: the rows of one feature are listed in
+    ascending / descending coordinate order and kept together, or all rows of the file are shuffled) and
+    (b) many rows WITHOUT an ID: only `Parent=`, only a note, no attributes at all, or attributes whose KEYS merely
+    contain 'id' / 'parent' in another case or as prefix / suffix (exon_id=, Id=, PARENT=, parent_gene= ...) with
+    values SHARED between rows — such rows are separate records: only exact `ID=` / `Parent=` are identifiers"""
+    blocks, ids = [], []
     for i in range(n_feat):
         fid = f"{rng.choice(NAMES)}{i}{id_suffix}"
         ids.append(fid)
         seqid, biotype, strand = rng.choice(SEQIDS[:3]), rng.choice(BIOTYPES), rng.choice(["+", "-", "."])
         attrs = f"ID={fid};note={rng.choice(TOKENS)}"
+        if rng.random() < 0.3:
+            attrs += f";{rng.choice(LOOKALIKE_KEYS)}=v{rng.randint(0, 2)}"
         if i and rng.random() < 0.4:
             attrs += f";Parent={rng.choice(ids[:i])}"
-        for s, e in gen_spans(rng):
-            rows.append([seqid, "src", biotype, str(s + 1), str(e), ".", strand, ".", attrs])
+        spans = gen_spans(rng)
+        while len(spans) < min_rows:
+            spans = gen_spans(rng)
+        if order == "desc":
+            spans = spans[::-1]
+        blocks.append([[seqid, "src", biotype, str(s + 1), str(e), ".", strand, ".", attrs] for s, e in spans])
+    shared = [f"v{k}" for k in range(3)]
     for _ in range(rng.choice([0, 2, 4, 7, 11])):
         seqid, biotype, strand = rng.choice(SEQIDS[:3]), rng.choice(["exon", "cds", "g_ne"]), rng.choice(["+", "-", "."])
         a = rng.randint(0, 40)
         b = a + rng.randint(1, 6)
         r = rng.random()
-        if r < 0.55 and ids:
+        if r < 0.35 and ids:
             attrs = f"Parent={rng.choice(ids)}"
-        elif r < 0.75:
+        elif r < 0.7:
+            attrs = f"{rng.choice(LOOKALIKE_KEYS)}={rng.choice(shared)}"
+            if rng.random() < 0.4:
+                attrs += f";{rng.choice(LOOKALIKE_KEYS)}={rng.choice(shared)}"
+        elif r < 0.85:
             attrs = f"note={rng.choice(TOKENS)}"
         else:
             attrs = None  # eight-column row
-        rows.append([seqid, "src", biotype, str(a + 1), str(b), ".", strand, "."] + ([] if attrs is None else [attrs]))
-    rng.shuffle(rows)
+        blocks.append([[seqid, "src", biotype, str(a + 1), str(b), ".", strand, "."] + ([] if attrs is None else [attrs])])
+    if order == "shuffle":
+        rows = [w for blk in blocks for w in blk]
+        rng.shuffle(rows)
+    else:
+        rng.shuffle(blocks)
+        rows = [w for blk in blocks for w in blk]
     lines = ["##gff-version 3"] + ["\t".join(w) for w in rows]
     return "\n".join(lines) + "\n"
 
@@ -936,6 +958,21 @@ def spec_check(ctx, budget):
             bump(out, "idless_gff_blocks", "1" if n_blocks(c2) == 1 else "2" if n_blocks(c2) == 2 else "3+")
             for what, inp, want, got, sig in run_case(c2, scratch, out, rng, n_windows=6, tag=f"u{i}"):
                 add_failure(out, "spec", what, inp, want, got, sig=sig)
+    # multi-row features listed in ascending / descending / shuffled coordinate order, the file cut at EVERY
+    # block boundary, and the window x allow_partial lattice run on each db loaded that way
+    for i in range(2 * budget):
+        for order in ("asc", "desc", "shuffle"):
+            text = gff_text(rng, rng.choice([1, 2, 3]), order=order, min_rows=2)
+            intent, rows = parse_gff_text(text)
+            base = dict(kind="gff", how="gff", text=text, intent=[_clean(r) for r in intent], rows=rows)
+            lat = lattice(intent)
+            wq = [dict(start=a, stop=b, allow_partial=ap) for a in lat for b in lat if a < b for ap in (True, False)]
+            for lpb in range(1, len(text.rstrip("\n").split("\n")) + 1):
+                c2 = dict(base, lines_per_block=lpb)
+                bump(out, "gff_order_x_boundary", order)
+                qs = wq if len(wq) <= 40 else rng.sample(wq, 40)
+                for what, inp, want, got, sig in run_case(c2, scratch, out, rng, queries=qs, tag=f"o{i}"):
+                    add_failure(out, "spec", what, inp, want, got, sig=sig)
     # chains subset -> union -> update with copies after each step
     for i in range(10 * budget):
         cc = gen_chain_case(rng, plans[:6])
@@ -1116,11 +1153,7 @@ def correspondence(ctx):
             _, nq, real, dj, scan = m
             for q, a, b, sc in zip(nq, rep, real, scan):
                 out["evaluations"] += 1
-                if a != b and q.get("attributes") is not None and b == sc:
-                    # branch of the open finding C17-num-matches-attributes-exact: the model mirrors the unwrapped
-                    # comparison; a tree whose num_matches equals the scan here is right (spec_check decides)
-                    bump(out, "num_matches_attributes", "real-matches-scan-not-model")
-                elif a != b:
+                if a != b:
                     add_failure(out, "corr", "numMatches model differs from num_matches", dict(db=dj, q=q), a, b, confirmed=False)
             continue
         kind, how, dj, qs, real_f, real_r = m
